@@ -46,10 +46,13 @@ Theorem C18_public_args_intact : forall f p, In (f, p) public_functions -> args_
 Proof. exact public_args_intact. Qed.
 Print Assumptions C18_public_args_intact.
 
-(* ... nor returns a buffer that a module-level cache holds. *)
+(* ... nor returns a buffer that a module-level cache holds, nor one of the argument buffers
+   themselves (except at the positions named in returned_args_allowed for that callable). *)
 Theorem C18_public_results_not_cached : forall f p, In (f, p) public_functions -> ret_exempt f = false ->
   forall st st', init_ok p st -> exec (body p) st st' ->
-  forall b, In b (rets st') -> cached st' b = false.
+  forall b, In b (rets st') ->
+  cached st' b = false /\
+  (forall i, org st' b = LArg i -> existsb (Nat.eqb i) (allowed_args returned_args_allowed f) = true).
 Proof. exact public_results_not_cached. Qed.
 Print Assumptions C18_public_results_not_cached.
 
@@ -74,7 +77,9 @@ Print Assumptions C18_method_exceptions_refuted.
    findings this is the refutation of the clause on the generated program). *)
 Theorem C18_exceptions_refuted :
   forallb rejected_args (known_arg_writers ++ map fst unproved_args) = true /\
-  forallb rejected_ret (known_cache_returners ++ cache_accessors) = true.
+  forallb rejected_ret (known_cache_returners ++ cache_accessors) = true /\
+  forallb (fun f => match lookup public_functions f with Some p => negb (safe_ret_except [] p) | None => false end)
+          (map fst returned_args_allowed) = true.
 Proof. exact exceptions_refuted. Qed.
 Print Assumptions C18_exceptions_refuted.
 
